@@ -183,6 +183,11 @@ where
         if let Some(trigger) = self.trigger.take() {
             trigger.recv().ok();
         }
+        // What was written through this writer must not stay behind in the buffer it shares
+        // with the following responses: nothing else flushes it while the connection stays open.
+        if let Ok(mut writer) = self.writer.lock() {
+            writer.flush().ok();
+        }
         self.on_finish.send(()).ok();
     }
 }
